@@ -21,6 +21,7 @@ import (
 	"strconv"
 	"strings"
 	"sync"
+	"sync/atomic"
 	"time"
 
 	"github.com/insomniacslk/dhcp/dhcpv4"
@@ -346,7 +347,7 @@ func runScenario(v6 bool, wait int, evs []srvEvent) *scenarioResult {
 		early := render()
 		seq, same := seqOf(peer)
 		waitOK := true
-		if wait > 0 && seq >= 0 {
+		if wait > 0 && seq >= 0 && waitTimeouts.Load() < 5 {
 			// reads completed when this datagram was delivered: those before it and itself
 			before := 0
 			for i := 0; i <= seq; i++ {
@@ -354,7 +355,10 @@ func runScenario(v6 bool, wait int, evs []srvEvent) *scenarioResult {
 					before++
 				}
 			}
-			waitOK = sc.waitReads(before+wait, 500*time.Millisecond)
+			waitOK = sc.waitReads(before+wait, 300*time.Millisecond)
+			if !waitOK {
+				waitTimeouts.Add(1)
+			}
 		}
 		late := render()
 		mu.Lock()
@@ -477,6 +481,10 @@ func runScenario(v6 bool, wait int, evs []srvEvent) *scenarioResult {
 	sc.mu.Unlock()
 	return res
 }
+
+// waitTimeouts: handlers that waited in vain for later reads (the loop does not go on while a
+// handler runs).  After a few of them nobody waits any more, so that such a tree fails fast.
+var waitTimeouts atomic.Int32
 
 var stackBuf = make([]byte, 1<<16)
 var stackMu sync.Mutex
@@ -1003,7 +1011,7 @@ func checkC14(v6 bool, wait int, evs []srvEvent) (what, class string) {
 		}
 		v := got[0]
 		if !v.waitOK {
-			return fmt.Sprintf("handler of datagram %d still waiting for later reads after 500 ms: the loop does not go on while a handler runs", e.seq), "server-handler-blocks-loop"
+			return fmt.Sprintf("handler of datagram %d still waiting for later reads after 300 ms: the loop does not go on while a handler runs", e.seq), "server-handler-blocks-loop"
 		}
 		if v.early != e.canon {
 			return fmt.Sprintf("datagram %d: handler message differs from FromBytes of that datagram: got %.80s want %.80s", e.seq, v.early, e.canon), "server-message"
